@@ -950,7 +950,7 @@ class Interp:
                 if n >= self.ex.max_unroll:
                     self.ex.note("bounded", f"for loop in {fr.func.key} line {s.lineno} unrolled {self.ex.max_unroll}x")
                     raise PathEnd("unroll bound", truncated=True)
-                x = it[n] if isinstance(it, SSeq) else seq_getitem(it, n)
+                x = self.lib.seq_elem(self, it, z3.IntVal(n)) if isinstance(it, SSeq) else seq_getitem(it, n)
                 n += 1
                 self.assign(s.target, x)
                 try:
@@ -1000,7 +1000,7 @@ class Interp:
             go = self.branch(SBool(idx.t < z3.Length(it.t)))
         if go:
             if it is not None:
-                self.assign(s.target, it[idx] if isinstance(it, SSeq) else seq_getitem(it, idx))
+                self.assign(s.target, self.lib.seq_elem(self, it, idx.t) if isinstance(it, SSeq) else seq_getitem(it, idx))
             try:
                 self.exec_block(s.body)
             except BreakSig:
